@@ -361,7 +361,12 @@ def run(ctx, tier):
             main = [L for L in fn.loops() if bi in L['body']]
             heads = {min(main, key=lambda l: len(l['body']))['header']} if main else set()
             start = fn.blocks[bi]['term'].get('target')
-            reach = fn.reachable(start, stop=frozenset(sites)) if start is not None else set()
+            # going round the rewire loop because the neighbour list is empty is no skipped pass (`if !neighbours.is_empty() { .. }`)
+            empt, _ef, _es = fn.bool_edges(lambda m: m[0] == 'call' and str(m[1]).endswith(('::is_empty',)) and 'Vec' in str(m[1]))
+            e2, _f2, _s2 = fn.bool_edges(lambda m: m[0] == 'binop' and m[1] == 'Eq' and any(
+                q[0] == 'call' and str(q[1]).endswith('::len') for side in (m[2], m[3]) for q in side) and any(
+                q[0] == 'const' and str(q[1]).rstrip('usize_').strip() in ('0',) for side in (m[2], m[3]) for q in side))
+            reach = fn.reachable(start, removed=frozenset(set(empt) | set(e2)), stop=frozenset(sites)) if start is not None else set()
             ends = (set(fn.return_blocks()) | heads) - sites
             # a return that reports an error (timeout) is not the end of an iteration that added a node... it is still after the
             # push, so it counts: the property speaks of every node that is added
